@@ -339,7 +339,8 @@ def check_bound(toks, skip=()):
             i += 1
             continue
         if mode == 'yield' and depth == 0:
-            bound.add(name)
+            if not is_kw(i + 1, 'AS'):      # "YIELD field AS alias": only the alias becomes visible
+                bound.add(name)
             i += 1
             continue
         if is_kw(i + 1, 'IN') and pk == 'punct' and pt in ('(', '['):
@@ -453,6 +454,7 @@ SELFTEST_BAD = [
     ("MATCH (n {Name: 'it's'}) RETURN n", {}, 'untokenizable'),
     ("MATCH (n {Name: 'abc\\'}) RETURN n", {}, 'untokenizable'),
     ("MATCH (n) RETURN [x IN n.l | x.a], x.b", {}, 'unbound-variable'),
+    ("CALL apoc.x.y($a) YIELD path AS pth WITH path RETURN path", {'a': 1}, 'unbound-variable'),
 ]
 
 
